@@ -6,10 +6,12 @@ import (
 	"math"
 	"net"
 	"sort"
+	"strings"
 	"sync"
 	"testing"
 
 	"github.com/facebookincubator/dns/dnsrocks/db"
+	"github.com/facebookincubator/dns/dnsrocks/dnsserver"
 	"github.com/miekg/dns"
 	"pgregory.net/rapid"
 
@@ -32,6 +34,8 @@ type c11Case struct {
 	World  *kit.World `json:"world,omitempty"`
 	Query  *kit.Query `json:"query,omitempty"`
 	Detail string     `json:"detail,omitempty"`
+	Cache  bool       `json:"cache,omitempty"`   // end to end: response cache enabled (WRSTimeout 0: weighted answers are not kept)
+	MXPerm []int      `json:"mx_perm,omitempty"` // end to end: order of the three MX lines of the apex
 }
 
 var c11Weights = []uint32{0, 1, 2, 3, 10, 1000, 1 << 31, 1<<32 - 1}
@@ -236,15 +240,30 @@ func c11Freq(t kit.Fataler, cs c11Case, n int) {
 
 // ---- end to end -------------------------------------------------------------
 
-func c11World(v4, v6 []c11Cand, wild bool, tagged bool) *kit.World {
+func c11World(v4, v6 []c11Cand, wild bool, tagged bool, mxPerm []int) *kit.World {
 	w := &kit.World{Serial: 1}
 	add := func(l kit.Line) { w.Lines = append(w.Lines, l) }
 	add(ln('.', "example.com", func(l *kit.Line) { l.X = "a" }))
 	add(ln('&', "sub.example.com", func(l *kit.Line) { l.X = "ns.sub.example.com" }))
-	add(ln('@', "example.com", func(l *kit.Line) { l.X = "mail.example.com" }))
-	// the same exchanger a second time (another preference): still one address
-	// per family for that target in the additional section
-	add(ln('@', "example.com", func(l *kit.Line) { l.X = "mail.example.com"; l.N[0] = 20 }))
+	// three MX records in a drawn order: the weighted exchanger twice (another
+	// preference: still one address per family for that target) and an exchanger
+	// with a single address (so the last target of the response may be either)
+	mx := []kit.Line{
+		ln('@', "example.com", func(l *kit.Line) { l.X = "mail.example.com" }),
+		ln('@', "example.com", func(l *kit.Line) { l.X = "mail.example.com"; l.N[0] = 20 }),
+		ln('@', "example.com", func(l *kit.Line) { l.X = "one.example.com"; l.N[0] = 30 }),
+	}
+	if len(mxPerm) != 3 {
+		mxPerm = []int{0, 1, 2}
+	}
+	for _, i := range mxPerm {
+		add(mx[i%3])
+	}
+	add(ln('+', "one.example.com", func(l *kit.Line) { l.IP = "192.0.2.210" }))
+	if !wild {
+		// an exchanger next to the weighted addresses (ANY answers then carry both)
+		add(ln('@', "n.example.com", func(l *kit.Line) { l.X = "mail.example.com" }))
+	}
 	add(ln('+', "zero.example.com", func(l *kit.Line) { l.IP = "192.0.2.200"; l.N[0] = 0 }))
 	add(ln('+', "zero.example.com", func(l *kit.Line) { l.IP = "192.0.2.201"; l.N[0] = 0 }))
 	for i, c := range append(append([]c11Cand{}, v4...), v6...) {
@@ -266,9 +285,13 @@ func c11World(v4, v6 []c11Cand, wild bool, tagged bool) *kit.World {
 }
 
 func c11EndToEnd(t kit.Fataler, cs c11Case, wild, tagged bool, rounds int) {
-	w := c11World(cs.V4, cs.V6, wild, tagged)
+	w := c11World(cs.V4, cs.V6, wild, tagged, cs.MXPerm)
 	cs.World = w
-	served, cleanup, err := kit.ServeAll(w.Text(), w.Serial, kit.AllBackends, kit.DefaultCompile, kit.HandlerOpts{})
+	ho := kit.HandlerOpts{}
+	if cs.Cache {
+		ho.Cache = dnsserver.CacheConfig{Enabled: true, LRUSize: 64}
+	}
+	served, cleanup, err := kit.ServeAll(w.Text(), w.Serial, kit.AllBackends, kit.DefaultCompile, ho)
 	if err != nil {
 		kit.Fail(t, "C11", "compile-error", cs, "compile/open: %v", err)
 		return
@@ -317,7 +340,11 @@ func c11EndToEnd(t kit.Fataler, cs c11Case, wild, tagged bool, rounds int) {
 			}
 		}
 		// additional section: NS and MX targets, at most one per family per target
-		for _, q := range []kit.Query{{Name: "x.sub.example.com.", Type: 1, Class: 1, MaxAns: cs.Max}, {Name: "example.com.", Type: 15, Class: 1, MaxAns: cs.Max}} {
+		addQs := []kit.Query{{Name: "x.sub.example.com.", Type: 1, Class: 1, MaxAns: cs.Max}, {Name: "example.com.", Type: 15, Class: 1, MaxAns: cs.Max}}
+		if !wild {
+			addQs = append(addQs, kit.Query{Name: "n.example.com.", Type: 255, Class: 1, MaxAns: cs.Max})
+		}
+		for _, q := range addQs {
 			q := q
 			csb.Query = &q
 			counts := map[string]int{}
@@ -326,8 +353,15 @@ func c11EndToEnd(t kit.Fataler, cs c11Case, wild, tagged bool, rounds int) {
 				if err != nil || resp == nil {
 					kit.Fail(t, "C11", "no-response", csb, "query failed: %v", err)
 				}
-				var a, aaaa []dns.RR
+				// per target: the weighted one (ns.sub / mail) and the single-address one
+				var a, aaaa, oneA []dns.RR
 				for _, rr := range resp.Extra {
+					if strings.EqualFold(rr.Header().Name, "one.example.com.") {
+						if rr.Header().Rrtype == dns.TypeA {
+							oneA = append(oneA, rr)
+						}
+						continue
+					}
 					switch rr.Header().Rrtype {
 					case dns.TypeA:
 						a = append(a, rr)
@@ -339,6 +373,9 @@ func c11EndToEnd(t kit.Fataler, cs c11Case, wild, tagged bool, rounds int) {
 				one.Max = 1
 				c11Valid(t, one, "A/additional", cs.V4, a)
 				c11Valid(t, one, "AAAA/additional", cs.V6, aaaa)
+				if q.Type == 15 && (len(oneA) != 1 || rrIP(oneA[0]) != "192.0.2.210") {
+					kit.Fail(t, "C11", "count/A/additional-single", csb, "MX target one.example.com (one address) has %d A records in the additional section", len(oneA))
+				}
 				for _, rr := range append(a, aaaa...) {
 					counts[rrIP(rr)]++
 				}
@@ -421,6 +458,8 @@ func TestC11(t *testing.T) {
 			cs.V6 = cs.V6[:8]
 		}
 		wild, tagged := rapid.Bool().Draw(t, "wild"), rapid.Bool().Draw(t, "tagged")
+		cs.Cache = rapid.Bool().Draw(t, "cache")
+		cs.MXPerm = rapid.Permutation([]int{0, 1, 2}).Draw(t, "mxperm")
 		rounds := 60
 		if rapid.IntRange(0, 3).Draw(t, "long") == 0 {
 			rounds = 2000
@@ -430,6 +469,7 @@ func TestC11(t *testing.T) {
 		sig, _ := c11Signature(cs)
 		kit.NonTrivial("e2e|" + sig + fmt.Sprint(wild, tagged))
 		kit.Class(fmt.Sprintf("e2e:max%d-rounds%d", cs.Max, rounds))
+		kit.Class(fmt.Sprintf("e2e:cache=%v", cs.Cache))
 	}))
 	// (d) concurrent use of the shared generator: totals stay proportional
 	if kit.Shard() == 0 {
